@@ -63,6 +63,45 @@ PROPS["C03"] = {
     "thorough": {"scale": 10, "shards": 16, "timeout": 1500, "fuzz": [("FuzzName", 60)]},
 }
 
+PROPS["C04"] = {
+    "pkg": "c04",
+    "technique": "round-trip and independent-encoder property testing over generated addresses (all positions swept), plus accepted-language validity predicate over generated ARPA-shaped texts; native fuzzing in the thorough tier",
+    "level_text": ("Generated-input search with two oracles: (1) IPToReversedAddr must equal an independent RFC 1035/3596 encoder byte for byte and "
+                   "IPFromReversedAddr must map every re-spelling (random upper-casing, optional trailing dot) back to the address, for generated 4-byte, "
+                   "16-byte and v4-mapped addresses and a sweep wiring every octet/nibble position to all values; (2) for arbitrary text, anything "
+                   "IPFromReversedAddr accepts must equal the canonical name of the returned address ASCII-case-insensitively modulo one trailing dot. "
+                   "Exploration: 2^32+2^128 addresses are sampled, not enumerated."),
+    "level_note": "Trusted: the harness's own 25-line encoder (internal/model/arpa.go), written from the RFC text without calling netutil.",
+    "rule": ("Round trip: addresses with bytes from boundary values or uniform, in 4-byte / 16-byte / v4-mapped form, random subset of letters upper-cased, "
+             "optional trailing dot; every case is non-trivial; distinct = (bytes, spelling). Accept direction: ARPA label-sequence grammar (valid octets, "
+             "near-octets 256/00/01, nibbles, multi-char hex, Unicode digits; counts around 4 and 32; suffix variants incl. İn-addr.arpa, arKa, double dots), "
+             "canonical names with one label dropped/duplicated/replaced or 1 edit, byte soup; non-trivial: accepted, or rejected while carrying an ARPA root "
+             "as ASCII-case-insensitive suffix; distinct = distinct text."),
+    "assumptions": [],
+    "expect_classes": {"accept:accepted": 0.01, "accept:rejected-with-arpa-root": 0.1},
+    "quick": {"scale": 3, "shards": 1, "timeout": 300},
+    "thorough": {"scale": 10, "shards": 16, "timeout": 1500, "fuzz": [("FuzzAccept", 60), ("FuzzRoundTrip", 30)]},
+}
+
+PROPS["C05"] = {
+    "pkg": "c05",
+    "technique": "differential property testing against an independent prefix decoder / longest-suffix extractor: exhaustive short label sequences, generated encodings with mutations and embeddings, long nibble runs; native fuzzing in the thorough tier",
+    "level_text": ("Generated-input search against an independent reference (internal/model/arpa.go): PrefixFromReversedAddr must succeed exactly when the "
+                   "reference decoder does and return the same masked prefix; ExtractReversedAddr must succeed exactly when the name is domain-valid under "
+                   "the C03 model and some label-aligned suffix decodes, returning the decode of the longest one. Exhaustive over all label sequences of "
+                   "length 0-4 (quick) / 0-6 (thorough) over a 13-label alphabet; everything else is sampled. Exploration."),
+    "level_note": "Trusted: the reference decoder and the C03 name model (idna.ToASCII is part of the specification).",
+    "rule": ("ARPA grammar (octets, near-octets, nibbles in both cases, multi-char labels, Unicode digits; counts around 4 and 32; 0-3 leading foreign labels; "
+             "suffix variants incl. unaligned roots xin-addr.arpa/xip6.arpa, non-ASCII look-alikes, double dots), encodings of generated prefixes with one "
+             "label replaced / foreign labels in front / root replaced, upper-casing, trailing dots; exhaustive label-sequence enumeration; nibble runs of "
+             "28-36 labels. Non-trivial: the name passes domain validation and carries one of the two roots as ASCII-case-insensitive suffix (it reaches "
+             "the hand-written offset arithmetic); distinct = distinct text (each text goes through both functions)."),
+    "assumptions": ["label search is done on the raw (ASCII-lowercased) text, validity on idna.ToASCII of it, as the code and the statement both do"],
+    "expect_classes": {"c05.extract:embedded-in-longer-name": 0.01, "c05.prefix:decoded": 0.03},
+    "quick": {"scale": 1, "shards": 1, "timeout": 300},
+    "thorough": {"scale": 10, "shards": 16, "timeout": 1500, "fuzz": [("FuzzARPAPrefix", 60)]},
+}
+
 ALL_IDS = ["C%02d" % i for i in range(1, 21)]
 NOT_APPLICABLE = [
     {"property_id": pid, "reason": "check not built yet in this revision of the harness (work in progress; see DESIGN.md section 9)"}
